@@ -415,7 +415,7 @@ class Parser(object):
             elif t[2] == '*':
                 t[0] = t[1] * t[3]
             elif t[2] == '/':
-                t[0] = t[1] / t[3]
+                t[0] = t[1] // t[3]
             elif t[2] == '<<':
                 t[0] = t[1] << t[3]
             elif t[2] == '>>':
